@@ -234,14 +234,22 @@ theorem choice_list_attainable (n i : Nat) (h : i < n) : randomChoiceList n i = 
   unfold randomChoiceList
   rw [if_neg (by omega), if_pos h]
 
-/-- The weight a `choice:` item contributes (`probability or when`, `when` absent). -/
-theorem choiceWeight_eq (r : RawW) :
-    choiceWeight r = match parseWeight r with
-      | some (n + 1) => some (n + 1)
-      | _ => none := by
-  cases r <;> simp [choiceWeight, RawW.truthy, parseWeight, pyOr] <;> rfl
+/-- The weight a `choice:` item contributes: the written probability as it is (also `0`);
+    nothing when no probability was written (`when` is absent inside `random_choice`). -/
+theorem choiceWeight_eq (r : RawW) : choiceWeight r = parseWeight r := by
+  cases r <;> rfl
 
-/-- `choice:` items: a picked item has a positive probability. -/
+/-- `choice:` items and the mapping form select identically (for every list and every draw). -/
+theorem choice_items_eq_kw (raws : List RawW) (x : Nat) :
+    randomChoiceItems raws x = randomChoiceKw raws x := by
+  unfold randomChoiceItems randomChoiceKw
+  congr 1
+  apply List.map_congr_left
+  intro r _
+  rw [choiceWeight_eq]; rfl
+
+/-- `choice:` items: a picked item has a positive probability (an item with probability 0 is never
+    returned). -/
 theorem choice_items_support (raws : List RawW) (x i : Nat)
     (h : randomChoiceItems raws x = .picked i) :
     ∃ r p, raws[i]? = some r ∧ parseWeight r = some p ∧ 0 < p := by
@@ -252,29 +260,29 @@ theorem choice_items_support (raws : List RawW) (x i : Nat)
   | some r =>
     rw [hr] at hp
     simp only [Option.map_some, Option.some.injEq] at hp
-    refine ⟨r, p, rfl, ?_, hpos⟩
     rw [choiceWeight_eq] at hp
-    cases hq : parseWeight r with
-    | none => rw [hq] at hp; simp at hp
-    | some q =>
-      rw [hq] at hp
-      cases q with
-      | zero => simp at hp
-      | succ q => simpa using hp
+    exact ⟨r, p, rfl, hp, hpos⟩
 
-/-- **D09 — "always the option with all the weight" is refuted for `choice:` items.**
-    The documented way of writing an impossible alternative, `probability: 0` (or `0%`), makes
-    every evaluation fail with a `TypeError`, whatever the draw … -/
-theorem choice_items_all_weight_refuted :
-    ∀ x, randomChoiceItems [.int 0, .pct 100] x = .typeError ∧
-         randomChoiceItems [.pct 0, .pct 100] x = .typeError := by
-  intro x; constructor <;> rfl
+/-- **The item with all the weight is always picked** (full strength; refuted before cfed176 —
+    D09 — because a written `0` became `None`).  `allSome …` says every item has a written
+    probability; the items other than `j` may have probability 0. -/
+theorem choice_items_all_weight (raws : List RawW) (w : List Nat) (x j : Nat)
+    (hw : allSome (raws.map (fun r => choiceWeight r)) = some w) (hx : x < sumW w)
+    (hall : w.getD j 0 = sumW w) :
+    randomChoiceItems raws x = .picked j :=
+  choice_all_weight _ w x j hw hx hall
 
-/-- … precisely: a `choice:` list fails with `TypeError` iff some item has probability zero or
-    none at all. -/
+/-- The D09 input: `probability: 0` (or `0%`) next to `100%` — every draw picks the second item. -/
+theorem choice_items_zero_probability_never_picked (x : Nat) (hx : x < 100) :
+    randomChoiceItems [.int 0, .pct 100] x = .picked 1 ∧
+    randomChoiceItems [.pct 0, .pct 100] x = .picked 1 := by
+  constructor
+  · exact choice_items_all_weight [.int 0, .pct 100] [0, 100] x 1 rfl hx rfl
+  · exact choice_items_all_weight [.pct 0, .pct 100] [0, 100] x 1 rfl hx rfl
+
+/-- A `choice:` list fails with `TypeError` iff some item has no probability at all. -/
 theorem choice_items_typeError_iff (raws : List RawW) (x : Nat) :
-    randomChoiceItems raws x = .typeError ↔
-      ∃ r ∈ raws, parseWeight r = none ∨ parseWeight r = some 0 := by
+    randomChoiceItems raws x = .typeError ↔ ∃ r ∈ raws, parseWeight r = none := by
   unfold randomChoiceItems
   rcases choice_outcome_kind (raws.map (fun r => choiceWeight r)) x with
     ⟨he, h⟩ | ⟨_, hmem, h⟩ | ⟨w, hne, hw, h⟩
@@ -284,15 +292,8 @@ theorem choice_items_typeError_iff (raws : List RawW) (x : Nat) :
   · rw [h]
     simp only [true_iff]
     obtain ⟨r, hr, hrw⟩ := List.mem_map.1 hmem
-    refine ⟨r, hr, ?_⟩
     rw [choiceWeight_eq] at hrw
-    cases hq : parseWeight r with
-    | none => left; rfl
-    | some q =>
-      rw [hq] at hrw
-      cases q with
-      | zero => right; rfl
-      | succ q => simp at hrw
+    exact ⟨r, hr, hrw⟩
   · have hnone : ¬ (none ∈ raws.map (fun r => choiceWeight r)) := by
       rw [← Proofs.C11.allSome_none_iff, hw]; simp
     have hl : ¬ weightedIndex (raws.map (fun r => choiceWeight r)) x = .typeError := by
@@ -302,23 +303,9 @@ theorem choice_items_typeError_iff (raws : List RawW) (x : Nat) :
     · intro ⟨r, hr, hrw⟩
       exfalso; apply hnone
       refine List.mem_map.2 ⟨r, hr, ?_⟩
-      rw [choiceWeight_eq]
-      rcases hrw with hrw | hrw <;> rw [hrw]
+      rw [choiceWeight_eq, hrw]
 
-/-- **Partial (D09).** When every item's probability is a positive number the `choice:` list
-    behaves exactly like the mapping form … -/
-theorem choice_items_eq_kw_partial (raws : List RawW) (x : Nat)
-    (hpos : ∀ r ∈ raws, ∃ n, parseWeight r = some (n + 1)) :
-    randomChoiceItems raws x = randomChoiceKw raws x := by
-  unfold randomChoiceItems randomChoiceKw
-  congr 1
-  apply List.map_congr_left
-  intro r hr
-  obtain ⟨n, hn⟩ := hpos r hr
-  rw [choiceWeight_eq, hn]; simp [kwWeight, hn]
-
-/-- … and the mapping form (where `0` is a legal weight) satisfies the full property: the
-    option holding all the weight is picked by every draw. -/
+/-- The mapping form: the option holding all the weight is picked by every draw. -/
 theorem choice_kw_all_weight (raws : List RawW) (w : List Nat) (x j : Nat)
     (hw : allSome (raws.map kwWeight) = some w) (hx : x < sumW w) (hall : w.getD j 0 = sumW w) :
     randomChoiceKw raws x = .picked j :=
@@ -328,6 +315,7 @@ example : randomChoiceKw [.int 0, .pct 10, .int 3] 9 = .picked 1 := by decide
 example : randomChoiceKw [.int 0, .pct 10, .int 3] 10 = .picked 2 := by decide
 example : randomChoiceKw [.int 0, .pct 10, .int 0] 9 = .picked 1 := by decide
 example : randomChoiceItems [.pct 30, .pct 30, .pct 30] 89 = .picked 2 := by decide
+example : randomChoiceItems [.int 0, .pct 100] 99 = .picked 1 := by decide
 example : randomChoiceItems [.pct 30, .none] 0 = .typeError := by decide
 
 /-! ### `date_between` -/
@@ -465,9 +453,10 @@ theorem faker_between_bounds (S E : Int) (d : Nat) (v : Int) (hlt : S < E)
   simp only [usPerSec] at *
   omega
 
-/-- **D23 — equal bounds are overshot.** With `start = end` (the documented "empty" example)
-    the value is `start + random()`: every draw but `0` gives a value *after* `end`. -/
-theorem faker_between_equal_bounds_refuted :
+/-- **Faker's equal-bounds behaviour** (the reason for e0d1353): `date_time_between` with
+    `start = end` returns `start + random()`, after `end` for every draw but `0`.
+    `datetime_between` no longer hands equal bounds to Faker (`datetime_between_equal_bounds`). -/
+theorem faker_between_equal_bounds_overshoots :
     ∃ (S : Int) (d : Nat) (v : Int), S % usPerSec = 0 ∧ fakerBetween S S d = .value v ∧ S < v :=
   ⟨0, 634706, 634706, by decide, by decide, by decide⟩
 
@@ -480,7 +469,7 @@ theorem faker_between_equal_bounds (S : Int) (d : Nat) (hS : S % usPerSec = 0)
   simp only [usPerSec] at *
   omega
 
-/-- **D24 — fractional seconds are truncated.** A start of `00:00:00.900000` is treated as
+/-- **D38 (unrepaired) — fractional seconds are truncated.** A start of `00:00:00.900000` is treated as
     `00:00:00`: the smallest draw gives a value before the written start. -/
 theorem faker_between_fractional_start_refuted :
     ∃ (S E : Int) (d : Nat) (v : Int), S < E ∧ fakerBetween S E d = .value v ∧ v < S :=
@@ -500,126 +489,170 @@ theorem faker_between_ends (S E : Int) (hS : S % usPerSec = 0) (hE : E % usPerSe
   · rw [if_neg h1, if_pos h2]; congr 1; simp only [usPerSec] at *; omega
   · rw [if_neg h1, if_pos h3]; congr 1; simp only [usPerSec] at *; omega
 
-/-- Order check followed by the draw, on the instants the code compares. -/
-theorem order_then_bounds (S E : Int) (d : Nat) (hS : S % usPerSec = 0) (hE : E % usPerSec = 0)
-    (hne : S ≠ E) :
-    (E < S ∧ (if E < S then DTOut.orderError else fakerBetween S E d) = .orderError) ∨
-    (S < E ∧ ∀ v, (if E < S then DTOut.orderError else fakerBetween S E d) = .value v →
-      S ≤ v ∧ v ≤ E) := by
+/-- Order check, equal-bounds check, then the draw, on the instants the code compares. -/
+theorem order_then_bounds (S E : Int) (d : Nat) (hS : S % usPerSec = 0) (hE : E % usPerSec = 0) :
+    (E < S ∧ (if E < S then DTOut.orderError else if E = S then .value S else fakerBetween S E d)
+        = .orderError) ∨
+    (E = S ∧ (if E < S then DTOut.orderError else if E = S then .value S else fakerBetween S E d)
+        = .value S) ∨
+    (S < E ∧ ∀ v, (if E < S then DTOut.orderError else if E = S then .value S else fakerBetween S E d)
+        = .value v → S ≤ v ∧ v ≤ E) := by
   by_cases hlt : E < S
   · left; exact ⟨hlt, by rw [if_pos hlt]⟩
   · right
-    have hlt' : S < E := by omega
-    refine ⟨hlt', fun v hv => ?_⟩
-    rw [if_neg hlt] at hv
-    exact faker_between_bounds _ _ d v hlt' hS hE hv
+    by_cases heq : E = S
+    · left; exact ⟨heq, by rw [if_neg hlt, if_pos heq]⟩
+    · right
+      have hlt' : S < E := by omega
+      refine ⟨hlt', fun v hv => ?_⟩
+      rw [if_neg hlt, if_neg heq] at hv
+      exact faker_between_bounds _ _ d v hlt' hS hE hv
 
-/-- **Instant preservation (D08) — refuted.** `datetime(spec)` is supposed to denote the
-    instant the user wrote; with `replace(tzinfo=…)` a written non-zero offset is discarded. -/
-theorem datetime_normalise_preserves_instant_refuted :
-    ∃ (c : Clock) (s : DTSpec), normalise codeTzCall c s ≠ writtenInstant c s :=
-  ⟨⟨0, 0⟩, .stamp 0 (some (-18000)), by decide⟩
+/-- **Instant preservation (full strength; refuted before f914bf1 — D08).** `datetime(spec)`
+    denotes the instant the user wrote, for every specification: written offsets of any size,
+    naive values, dates, `today`, `now`. -/
+theorem datetime_normalise_preserves_instant (c : Clock) (s : DTSpec) :
+    normalise codeTzCall c s = writtenInstant c s := by
+  simp only [normalise, codeTzCall, writtenInstant]
+  by_cases h : (parseSpec c s).2 = 0
+  · simp [h]
+  · simp [h]
 
-/-- Exact error of the normalisation: the written offset. -/
-theorem datetime_normalise_error (c : Clock) (s : DTSpec) :
-    normalise codeTzCall c s - writtenInstant c s = (parseSpec c s).2 * usPerSec := by
-  simp only [normalise, codeTzCall, writtenInstant]; omega
-
-/-- **Partial.** The instant is preserved when no offset, or a zero offset, was written
-    (this covers dates, `today` and `now`). -/
-theorem datetime_normalise_preserves_instant_partial (c : Clock) (s : DTSpec)
-    (h : (parseSpec c s).2 = 0) : normalise codeTzCall c s = writtenInstant c s := by
-  simp [normalise, codeTzCall, writtenInstant, h]
-
-theorem parseSpec_offset_zero (c : Clock) (s : DTSpec)
-    (h : ∀ w off, s = .stamp w (some off) → off = 0) : (parseSpec c s).2 = 0 := by
-  cases s with
-  | stamp w off =>
-    cases off with
-    | none => rfl
-    | some o => simp [parseSpec, h w o rfl]
-  | date d => rfl
-  | today => rfl
-  | now => rfl
-
-/-- With `astimezone` instead of `replace` the instant is preserved for every spec
-    (the proposed repair). -/
-theorem datetime_normalise_astimezone (c : Clock) (s : DTSpec) :
-    normalise .astimezone c s = writtenInstant c s := rfl
-
-/-- **D25 — the normalisation is not a function of the instant.** Two specifications denoting
-    the *same* instant normalise to different instants.  (`parse_datetimespec` is `lru_cache`d and
-    aware datetimes compare equal by instant, so which of the two a later call sees depends on
-    what was evaluated before.) -/
-theorem datetime_normalise_not_instant_invariant_refuted :
-    ∃ (c : Clock) (s s' : DTSpec), writtenInstant c s = writtenInstant c s' ∧
-      normalise codeTzCall c s ≠ normalise codeTzCall c s' :=
-  ⟨⟨0, 0⟩, .stamp 0 (some (-43200)), .stamp 43200000000 (some 0), by decide, by decide⟩
-
-/-- With `astimezone` the normalised value depends on the instant only, so serving an
-    equal-instant object from the cache is harmless. -/
-theorem datetime_normalise_astimezone_instant_invariant (c : Clock) (s s' : DTSpec)
+/-- **The normalisation is a function of the instant (D39 repaired).** Two specifications of the
+    same instant normalise identically, so an equal-instant object served from
+    `parse_datetimespec`'s cache cannot change a result. -/
+theorem datetime_normalise_instant_invariant (c : Clock) (s s' : DTSpec)
     (h : writtenInstant c s = writtenInstant c s') :
-    normalise .astimezone c s = normalise .astimezone c s' := h
+    normalise codeTzCall c s = normalise codeTzCall c s' := by
+  rw [datetime_normalise_preserves_instant, datetime_normalise_preserves_instant, h]
 
-/-- **Order check and bounds as written — refuted (D08).** Start `2024-01-01T00:00:00-05:00`,
-    end `2024-01-01T03:00:00+00:00`: the end instant is two hours *before* the start instant,
-    yet no error is raised and the value returned lies before the written start. -/
-theorem datetime_between_written_bounds_refuted :
-    ∃ (c : Clock) (s e : DTSpec) (d : Nat) (v : Int),
-      writtenInstant c e < writtenInstant c s ∧
-      datetimeBetween c s e d = .value v ∧ v < writtenInstant c s :=
-  ⟨⟨19723, 0⟩, .stamp 1704067200000000 (some (-18000)), .stamp 1704078000000000 (some 0),
-    8320076552, 1704075520076552, by decide, by decide, by decide⟩
+/-- The old call kind (`replace`, before f914bf1) loses exactly the written offset … -/
+theorem datetime_normalise_replace_error (c : Clock) (s : DTSpec) :
+    normalise .replace c s - writtenInstant c s = (parseSpec c s).2 * usPerSec := by
+  simp only [normalise, writtenInstant]; omega
 
-/-- **Partial: bounds as written.** If neither bound carries a non-zero written offset, both
-    are whole seconds and they differ, then an error is raised exactly when the written end is
-    before the written start, and otherwise the value lies between the written instants. -/
-theorem datetime_between_written_bounds_partial (c : Clock) (s e : DTSpec) (d : Nat)
-    (hs : (parseSpec c s).2 = 0) (he : (parseSpec c e).2 = 0)
-    (hS : writtenInstant c s % usPerSec = 0) (hE : writtenInstant c e % usPerSec = 0)
-    (hne : writtenInstant c s ≠ writtenInstant c e) :
+/-- … so it neither preserved the instant nor was a function of it (D08, D39 as statements about
+    the explicitly parameterised old behaviour). -/
+theorem datetime_normalise_replace_loses_instant :
+    (∃ (c : Clock) (s : DTSpec), normalise .replace c s ≠ writtenInstant c s) ∧
+    (∃ (c : Clock) (s s' : DTSpec), writtenInstant c s = writtenInstant c s' ∧
+      normalise .replace c s ≠ normalise .replace c s') :=
+  ⟨⟨⟨0, 0⟩, .stamp 0 (some (-18000)), by decide⟩,
+   ⟨⟨0, 0⟩, .stamp 0 (some (-43200)), .stamp 43200000000 (some 0), by decide, by decide⟩⟩
+
+/-- The unconditional `astimezone` would preserve the instant as well (same function). -/
+theorem datetime_normalise_astimezone (c : Clock) (s : DTSpec) :
+    normalise .astimezone c s = normalise codeTzCall c s := by
+  rw [datetime_normalise_preserves_instant]; rfl
+
+/-- **Equal bounds (full strength; refuted before e0d1353 — D37).** When both bounds denote the
+    same instant — whatever offsets or fractional seconds were written — every draw returns
+    exactly that instant. -/
+theorem datetime_between_equal_bounds (c : Clock) (s e : DTSpec) (d : Nat)
+    (h : writtenInstant c s = writtenInstant c e) :
+    datetimeBetween c s e d = .value (writtenInstant c s) := by
+  unfold datetimeBetween datetimeBetweenWith
+  simp only [datetime_normalise_preserves_instant, h]
+  simp
+
+/-- Faker's draw never produces the order error. -/
+theorem faker_between_ne_orderError (S E : Int) (d : Nat) : fakerBetween S E d ≠ .orderError := by
+  unfold fakerBetween
+  simp only
+  by_cases h1 : E / usPerSec - S / usPerSec ≤ 1
+  · rw [if_pos h1]
+    by_cases h2 : (d : Int) < usPerSec
+    · rw [if_pos h2]; simp
+    · rw [if_neg h2]; simp
+  · rw [if_neg h1]
+    by_cases h2 : (d : Int) ≤ (E / usPerSec - S / usPerSec) * usPerSec
+    · rw [if_pos h2]; simp
+    · rw [if_neg h2]; simp
+
+/-- **Order check as written (full strength; refuted before f914bf1 — D08).** An error is raised
+    exactly when the written end is before the written start, for every pair of specifications
+    and every draw. -/
+theorem datetime_between_order_check (c : Clock) (s e : DTSpec) (d : Nat) :
+    datetimeBetween c s e d = .orderError ↔ writtenInstant c e < writtenInstant c s := by
+  unfold datetimeBetween datetimeBetweenWith
+  simp only [datetime_normalise_preserves_instant]
+  by_cases hlt : writtenInstant c e < writtenInstant c s
+  · rw [if_pos hlt]; simp [hlt]
+  · rw [if_neg hlt]
+    by_cases heq : writtenInstant c e = writtenInstant c s
+    · rw [if_pos heq]; simp [hlt]
+    · rw [if_neg heq]
+      constructor
+      · intro h; exact absurd h (faker_between_ne_orderError _ _ d)
+      · intro h; exact absurd h hlt
+
+/-- **Bounds as written (D08 and D37 repaired; the whole-second hypotheses are D38, the one
+    finding that is not repaired).** For every pair of specifications with *any* written offsets:
+    an error iff the written end is before the written start; equal instants give that instant;
+    otherwise the value lies between the written instants. -/
+theorem datetime_between_written_bounds (c : Clock) (s e : DTSpec) (d : Nat)
+    (hS : writtenInstant c s % usPerSec = 0) (hE : writtenInstant c e % usPerSec = 0) :
     (writtenInstant c e < writtenInstant c s ∧ datetimeBetween c s e d = .orderError) ∨
+    (writtenInstant c e = writtenInstant c s ∧
+      datetimeBetween c s e d = .value (writtenInstant c s)) ∨
     (writtenInstant c s < writtenInstant c e ∧
       ∀ v, datetimeBetween c s e d = .value v → writtenInstant c s ≤ v ∧ v ≤ writtenInstant c e) := by
-  have e1 := datetime_normalise_preserves_instant_partial c s hs
-  have e2 := datetime_normalise_preserves_instant_partial c e he
+  have key := order_then_bounds (writtenInstant c s) (writtenInstant c e) d hS hE
   unfold datetimeBetween datetimeBetweenWith
-  simp only [e1, e2]
-  by_cases hlt : writtenInstant c e < writtenInstant c s
-  · left; exact ⟨hlt, by rw [if_pos hlt]⟩
-  · right
-    have hlt' : writtenInstant c s < writtenInstant c e := by omega
-    refine ⟨hlt', fun v hv => ?_⟩
-    rw [if_neg hlt] at hv
-    exact faker_between_bounds _ _ d v hlt' hS hE hv
+  simp only [datetime_normalise_preserves_instant]
+  exact key
 
-/-- With `astimezone` the same holds for *every* pair of specs, whatever offsets were written. -/
-theorem datetime_between_written_bounds_astimezone (c : Clock) (s e : DTSpec) (d : Nat)
+/-- Both written ends are attained when they are whole seconds at least two seconds apart. -/
+theorem datetime_between_ends (c : Clock) (s e : DTSpec)
     (hS : writtenInstant c s % usPerSec = 0) (hE : writtenInstant c e % usPerSec = 0)
-    (hne : writtenInstant c s ≠ writtenInstant c e) :
-    (writtenInstant c e < writtenInstant c s ∧
-        datetimeBetweenWith .astimezone c s e d = .orderError) ∨
-    (writtenInstant c s < writtenInstant c e ∧
-      ∀ v, datetimeBetweenWith .astimezone c s e d = .value v →
-        writtenInstant c s ≤ v ∧ v ≤ writtenInstant c e) := by
-  exact order_then_bounds (writtenInstant c s) (writtenInstant c e) d hS hE hne
+    (hlt : writtenInstant c s + usPerSec < writtenInstant c e) :
+    datetimeBetween c s e 0 = .value (writtenInstant c s) ∧
+    datetimeBetween c s e (writtenInstant c e - writtenInstant c s).toNat
+      = .value (writtenInstant c e) := by
+  have hu : (0 : Int) < usPerSec := by decide
+  have h1 : ¬ writtenInstant c e < writtenInstant c s := by omega
+  have h2 : ¬ writtenInstant c e = writtenInstant c s := by omega
+  unfold datetimeBetween datetimeBetweenWith
+  simp only [datetime_normalise_preserves_instant, if_neg h1, if_neg h2]
+  exact faker_between_ends _ _ hS hE hlt
 
-/-- In terms of the instants the code itself compares, the value is never more than a second
-    outside the bounds, for every input. -/
-theorem datetime_between_code_bounds (c : Clock) (s e : DTSpec) (d : Nat) (v : Int)
+/-- **Without the whole-second hypothesis the bounds statement is refuted (D38, Faker).** A start
+    written as `00:00:00.900000`: the smallest draw gives a value before the written start. -/
+theorem datetime_between_written_bounds_subsecond_refuted :
+    ∃ (c : Clock) (s e : DTSpec) (d : Nat) (v : Int),
+      writtenInstant c s < writtenInstant c e ∧
+      datetimeBetween c s e d = .value v ∧ v < writtenInstant c s :=
+  ⟨⟨0, 0⟩, .stamp 900000 none, .stamp 5000000 none, 0, 0, by decide, by decide, by decide⟩
+
+/-- For every input (also fractional seconds) a value is less than a second outside the written
+    bounds. -/
+theorem datetime_between_within_one_second (c : Clock) (s e : DTSpec) (d : Nat) (v : Int)
     (h : datetimeBetween c s e d = .value v) :
-    normalise codeTzCall c s - usPerSec < v ∧ v < normalise codeTzCall c e + usPerSec := by
+    writtenInstant c s - usPerSec < v ∧ v < writtenInstant c e + usPerSec := by
   unfold datetimeBetween datetimeBetweenWith at h
-  simp only at h
-  by_cases hlt : normalise codeTzCall c e < normalise codeTzCall c s
+  simp only [datetime_normalise_preserves_instant] at h
+  have hu : (0 : Int) < usPerSec := by decide
+  by_cases hlt : writtenInstant c e < writtenInstant c s
   · rw [if_pos hlt] at h; cases h
   · rw [if_neg hlt] at h
-    exact faker_between_within_one_second _ _ d v (by omega) h
+    by_cases heq : writtenInstant c e = writtenInstant c s
+    · rw [if_pos heq] at h; injection h with h; omega
+    · rw [if_neg heq] at h
+      exact faker_between_within_one_second _ _ d v (by omega) h
 
+/-- The D08 input (start `2024-01-01T00:00:00-05:00`, end `2024-01-01T03:00:00+00:00`): the end is two
+    hours before the start as instants — now an error for every draw. -/
+example (d : Nat) : datetimeBetween ⟨19723, 0⟩ (.stamp 1704067200000000 (some (-18000)))
+    (.stamp 1704078000000000 (some 0)) d = .orderError :=
+  (datetime_between_order_check _ _ _ d).2 (by decide)
+/-- The D37 input (the documented `empty` example). -/
+example (d : Nat) : datetimeBetween ⟨0, 0⟩ (.stamp 946641540000000 none) (.stamp 946641540000000 none) d
+    = .value 946641540000000 := datetime_between_equal_bounds _ _ _ d rfl
 example : datetimeBetween ⟨19723, 0⟩ (.date 10956) .today 86400000000 = .value 946684800000000 := by
   decide
 example : datetimeBetween ⟨0, 0⟩ (.stamp 5000000 none) (.stamp 3000000 none) 0 = .orderError := by
   decide
+example : datetimeBetween ⟨0, 0⟩ (.stamp 0 (some 3600)) (.stamp 7200000000 (some 7200)) 0
+    = .value (-3600000000) := by decide
 
 end SnowModel.Props.C11
